@@ -1,2 +1,154 @@
+(* C13/Props.v — property theorems only.  Each is closed by [exact] of a lemma from Lemmas.v and followed by
+   Print Assumptions (parsed by the check: must be "Closed under the global context").
+
+   Property C13 (full text in properties.jsonl).  Reading of the theorems below:
+   a history is [scripts] (what each test callback does when called: further manager operations, run
+   re-entrantly) plus [steps] (external operations at given instants, and the loop's choice of which due handle
+   runs next).  [trace false scripts steps] is the chronological event list of the model of the code WITH
+   fixes/C13-run-now-kwargs.patch applied ([trace true ..] is the code before the patch).  All theorems quantify
+   over every history: any number of operations, names, durations, instants, nesting, firing orders.
+
+   [delay_calls_justified] + [delay_never_twice] + [delay_fires_unless_cancelled] + [cancel_scope] together are
+   DESIGN.md's delay_fires_once_at_deadline_or_never:  every callback run stems from exactly one add, with that
+   add's callback and kwargs, at exactly add-time + ms when run by the loop; not after its handle was cancelled
+   (except the immediate call made by run_now itself); never twice; and every add whose deadline is past has
+   either run or was cancelled — and cancelling happens only to the name an operation addresses (or all, for
+   clear = what Mode.stop calls).
+
+   Not covered by theorems (validated by correspondence/oracle only): that Mode.stop reaches clear(); the timer
+   device (see NOTES.md). *)
 From Common Require Import Prelude.
 From C13 Require Import Model Lemmas.
+Open Scope Z_scope.
+
+(* every event is justified by what happened before it (see [justified] in Lemmas.v):
+   ECall t u c k rn : some earlier EAdd t0 u n ms c k (same callback c, same kwargs k), t = t0+1000*ms when the loop
+                      ran it (rn=false), no earlier call of u, and no earlier cancellation of u — or, for run_now
+                      (rn=true), the cancellation of u is the event immediately before;
+   EKill u          : u was neither cancelled nor called before;
+   ECheck n b g     : b = g (answer of check() = existence of a live handle for n);
+   EAdd .. u ..     : u is fresh. *)
+Theorem delay_calls_justified :
+  forall scripts steps pre e post,
+    trace false scripts steps = pre ++ e :: post -> justified (List.rev pre) e.
+Proof. exact calls_justified_l. Qed.
+Print Assumptions delay_calls_justified.
+
+Theorem delay_never_twice :
+  forall scripts steps l1 l2 l3 t u c k rn t' c' k' rn',
+    trace false scripts steps = l1 ++ ECall t u c k rn :: l2 ++ ECall t' u c' k' rn' :: l3 -> False.
+Proof. exact never_twice_l. Qed.
+Print Assumptions delay_never_twice.
+
+(* whenever the outside world gets control at time t (an accepted Ext step), every delay added with deadline
+   t0+ms < t has been cancelled or has run at exactly t0+ms with its callback and kwargs *)
+Theorem delay_fires_unless_cancelled :
+  forall scripts steps t t0 u n ms c k,
+    let st := run_from false scripts steps init in
+    ext_ok t st = true ->
+    In (EAdd t0 u n ms c k) (log st) -> t0 + 1000 * ms < t ->
+    In (EKill u) (log st) \/ In (ECall (t0 + 1000 * ms) u c k false) (log st).
+Proof. exact fires_unless_cancelled_l. Qed.
+Print Assumptions delay_fires_unless_cancelled.
+
+(* what gets cancelled: remove(n) exactly the handle named n; add(n) the same and schedules the new one at
+   now+ms; clear() everything *)
+Theorem cancel_scope :
+  forall scripts steps,
+    let st := run_from false scripts steps init in
+    (forall n, timers (do_remove n st) = rm n (timers st)) /\
+    (forall ms n cb kw, 0 <= n ->
+        timers (do_add ms n cb kw st) = rm n (timers st) ++ [mkT (next st) (now st + 1000 * ms) n cb kw]) /\
+    timers (do_clear st) = [].
+Proof. exact cancel_scope_l. Qed.
+Print Assumptions cancel_scope.
+
+Theorem check_truthful :
+  forall scripts steps n b g, In (ECheck n b g) (trace false scripts steps) -> b = g.
+Proof. exact check_truthful_l. Qed.
+Print Assumptions check_truthful.
+
+Theorem check_truthful_state :
+  forall scripts steps n,
+    let st := run_from false scripts steps init in
+    check st n = true <-> exists tm, In tm (timers st) /\ t_name tm = n.
+Proof. exact check_truthful_state_l. Qed.
+Print Assumptions check_truthful_state.
+
+(* run_now(n) with a pending delay tm: cancels tm's handle, removes the entry, then calls tm's callback with
+   tm's kwargs (whatever the callback then does: [call] is arbitrary) *)
+Theorem run_now_same_args :
+  forall scripts steps call n tm,
+    let st := run_from false scripts steps init in
+    find (name_is n) (timers st) = Some tm ->
+    do_run_now false call n st =
+      call (t_id tm) (t_cb tm) (t_kw tm) true
+           (mkS (now st) (next st) (map entry_of (rm n (timers st))) (rm n (timers st))
+                (EKill (t_id tm) :: log st)).
+Proof. exact run_now_same_args_l. Qed.
+Print Assumptions run_now_same_args.
+
+(* the code before fixes/C13-run-now-kwargs.patch: run_now calls the callback with other kwargs than stored *)
+Theorem run_now_same_args_refuted_before_fix :
+  exists scripts steps t0 u n ms c k t k',
+    In (EAdd t0 u n ms c k) (trace true scripts steps) /\
+    In (ECall t u c k' true) (trace true scripts steps) /\ k <> k'.
+Proof. exact run_now_legacy_drops_kwargs_l. Qed.
+Print Assumptions run_now_same_args_refuted_before_fix.
+
+(* PeriodicTask: the calls are t0+ival, t0+2*ival, ..., t0+n*ival (newest first), whatever the steps *)
+Theorem periodic_no_drift :
+  forall t0 ival steps, exists n, pcalls (snd (p_run t0 ival steps)) = ticks_desc t0 ival n.
+Proof. exact periodic_no_drift_l. Qed.
+Print Assumptions periodic_no_drift.
+
+Theorem periodic_none_after_cancel :
+  forall steps st, p_cancelled (fst st) = true ->
+    pcalls (snd (fold_left p_step steps st)) = pcalls (snd st).
+Proof. exact periodic_none_after_cancel_l. Qed.
+Print Assumptions periodic_none_after_cancel.
+
+Theorem periodic_no_missed_tick :
+  forall t0 ival steps t,
+    let st := p_run t0 ival steps in
+    p_cancelled (fst st) = false -> p_time_ok (fst st) t = true ->
+    exists n, pcalls (snd st) = ticks_desc t0 ival n /\ t <= t0 + (Z.of_nat n + 1) * ival.
+Proof. exact periodic_no_missed_tick_l. Qed.
+Print Assumptions periodic_no_missed_tick.
+
+(* ---- the hypotheses are satisfiable on non-trivial histories -------------------------------------------- *)
+(* script 0 re-adds its own name and run_now's "b"; "a" fires at 250 ms while the world is away, "c" is replaced *)
+Definition ex_scripts : list (list op) := [[Add 125 0 0 [1; 7]; RunNow 1]; []].
+Definition ex_steps : list step :=
+  [Ext 0 [Add 250 0 0 [0; 1]; Add 500 1 1 [2; 2]; Add 1000 2 (-1) []; Add 125 2 1 [3; 3]; Check 0];
+   Fire 3; Fire 0; Fire 4; Ext 1000000 [Check 0; Clear]].
+
+Example ex_history_accepted_and_nontrivial :
+  trace false ex_scripts ex_steps =
+  [EAdd 0 0 0 250 0 [0; 1]; EAdd 0 1 1 500 1 [2; 2]; EAdd 0 2 2 1000 (-1) []; EKill 2; EAdd 0 3 2 125 1 [3; 3];
+   ECheck 0 true true; EDict [0; 1; 2];
+   ECall 125000 3 1 [3; 3] false;
+   ECall 250000 0 0 [0; 1] false; EAdd 250000 4 0 125 0 [1; 7]; EKill 1; ECall 250000 1 1 [2; 2] true;
+   ECall 375000 4 0 [1; 7] false; EAdd 375000 5 0 125 0 [1; 7];
+   EReject 3].
+Proof. vm_compute. reflexivity. Qed.
+Print Assumptions ex_history_accepted_and_nontrivial.
+
+(* ... the last Ext was rejected because delay 5 (due 500 ms) had not fired: with its Fire steps the history is legal *)
+Definition ex_steps2 : list step :=
+  [Ext 0 [Add 250 0 0 [0; 1]; Add 500 1 1 [2; 2]]; Fire 0; Ext 300000 []].
+
+Example ex_fires_unless_cancelled_hyps :
+  let st := run_from false ex_scripts ex_steps2 init in
+  ext_ok 300000 st = true /\ In (EAdd 0 0 0 250 0 [0; 1]) (log st) /\ 0 + 1000 * 250 < 300000 /\
+  In (ECall 250000 0 0 [0; 1] false) (log st) /\ In (EKill 1) (log st) /\
+  exists tm, find (name_is 0) (timers st) = Some tm /\ t_kw tm = [1; 7].
+Proof. vm_compute. repeat split; auto 20. eexists. split; reflexivity. Qed.
+Print Assumptions ex_fires_unless_cancelled_hyps.
+
+Example ex_periodic :
+  let st := p_run 0 1000 [PRun; PRun; PCancel 2500; PRun; PAt 4000] in
+  pcalls (snd st) = ticks_desc 0 1000 2 /\ p_cancelled (fst st) = true /\ snd st = [PCalled 2000; PCalled 1000] /\
+  p_time_ok (fst (p_run 0 1000 [PRun; PRun])) 3000 = true.
+Proof. vm_compute. repeat split; reflexivity. Qed.
+Print Assumptions ex_periodic.
